@@ -45,6 +45,7 @@ static sqfs_object_t *frag_table_copy(const sqfs_object_t *obj)
 		return NULL;
 	}
 
+	sqfs_object_init(copy, obj->destroy, obj->copy);
 	return (sqfs_object_t *)copy;
 }
 
